@@ -439,3 +439,172 @@ func (g *gen) nilPtrDecls() {
 	g.f("nil-pointer")
 }
 
+// ---------------------------------------------------------------- keyed literals
+
+// litElems builds the element list of an array / slice literal that mixes
+// elements with and without a key. Go gives an element without a key the index
+// of its predecessor plus one, so the list is planned on the indexes: a keyed
+// element jumps (forwards, or backwards to a free index), the elements after it
+// continue from there. It returns the rendered elements and the highest index.
+// consts receives the local constants that some keys are spelled with.
+func (g *gen) litElems(val func() string, consts *[]string) (string, int) {
+	n := 2 + g.r.Intn(4)
+	used := map[int]bool{}
+	cur, hi := 0, -1
+	var out []string
+	afterKey := false
+	for i := 0; i < n; i++ {
+		keyed := g.r.Intn(3) == 0
+		if i == 0 {
+			keyed = g.r.Intn(3) > 0
+		}
+		if afterKey && g.r.Intn(4) > 0 {
+			keyed = false
+		}
+		idx := cur
+		if keyed || used[idx] {
+			keyed = true
+			idx = cur + 1 + g.r.Intn(3)
+			if g.r.Intn(4) == 0 {
+				// back to the lowest free index
+				for idx = 0; used[idx]; idx++ {
+				}
+			}
+			for used[idx] {
+				idx++
+			}
+		}
+		used[idx] = true
+		hi = max(hi, idx)
+		cur = idx + 1
+		v := val()
+		if !keyed {
+			out = append(out, v)
+			afterKey = false
+			if idx != i {
+				g.f("literal-element-without-key-after-key")
+			}
+			continue
+		}
+		afterKey = true
+		var k string
+		switch g.r.Intn(4) {
+		case 0:
+			k = g.fresh("kc")
+			*consts = append(*consts, fmt.Sprintf("const %s = %d", k, idx))
+		case 1:
+			a := g.r.Intn(idx + 1)
+			k = fmt.Sprintf("%d + %d", a, idx-a)
+		default:
+			k = fmt.Sprint(idx)
+		}
+		out = append(out, k+": "+v)
+	}
+	s := ""
+	for i, e := range out {
+		if i > 0 {
+			s += ", "
+		}
+		s += e
+	}
+	return s, hi
+}
+
+// litStmt declares an array, a slice or a byte slice by a composite literal with
+// keyed and positional elements (flat or nested), then reads the length and
+// every element.
+func (g *gen) litStmt() {
+	if g.noCalls {
+		g.assign(0)
+		return
+	}
+	on, op := g.noHeap, g.pureOnly
+	g.noHeap, g.pureOnly = false, true
+	defer func() { g.noHeap, g.pureOnly = on, op }()
+	ival := func() string {
+		if g.r.Intn(3) == 0 {
+			return fmt.Sprint(g.r.Intn(200) - 100)
+		}
+		e, iv := g.intExpr(1)
+		e, _ = fit(e, iv, 1000)
+		return e
+	}
+	bval := func() string {
+		switch g.r.Intn(3) {
+		case 0:
+			return fmt.Sprint(g.r.Intn(128))
+		case 1:
+			return fmt.Sprintf("'%c'", 'a'+rune(g.r.Intn(26)))
+		}
+		e, iv := g.intExpr(1)
+		e, _ = fit(e, iv, 1000)
+		return fmt.Sprintf("byte((%s%%64 + 64) %% 128)", e)
+	}
+	var consts []string
+	name := g.fresh("kl")
+	i, j := g.fresh("i"), g.fresh("j")
+	g.f("keyed-literal")
+	kind := g.r.Intn(6)
+	var decl string
+	fold := func(elem string) {
+		g.w("acc = (acc*31 + len(%s)) %% %d", name, modBig)
+		g.w("for %s := range %s {", i, name)
+		g.w("\tacc = (acc*31 + %s) %% %d", fmt.Sprintf(elem, name, i), modBig)
+		g.w("}")
+	}
+	switch kind {
+	case 0, 1: // [N]int / [...]int
+		el, hi := g.litElems(ival, &consts)
+		size := fmt.Sprint(hi + 1 + g.r.Intn(3))
+		if kind == 1 {
+			size = "..."
+		}
+		decl = fmt.Sprintf("%s := [%s]int{%s}", name, size, el)
+		g.f("keyed-literal:array")
+	case 2: // []int
+		el, hi := g.litElems(ival, &consts)
+		decl = fmt.Sprintf("%s := []int{%s}", name, el)
+		g.f("keyed-literal:slice")
+		defer func() { g.push(&vr{name: name, t: tInts, bound: 1000, minLen: hi + 1, noApp: true}) }()
+	case 3: // []byte
+		el, hi := g.litElems(bval, &consts)
+		decl = fmt.Sprintf("%s := []byte{%s}", name, el)
+		g.f("keyed-literal:byte-slice")
+		defer func() { g.push(&vr{name: name, t: tBytes, minLen: hi + 1, ro: true}) }()
+	case 4: // [N]byte
+		el, hi := g.litElems(bval, &consts)
+		decl = fmt.Sprintf("%s := [%d]byte{%s}", name, hi+1+g.r.Intn(2), el)
+		g.f("keyed-literal:byte-array")
+	default: // nested: the inner literals have their type elided
+		m := 0
+		inner := func() string {
+			el, hi := g.litElems(ival, &consts)
+			m = max(m, hi+1)
+			return "{" + el + "}"
+		}
+		el, hi := g.litElems(inner, &consts)
+		if g.r.Bool() {
+			decl = fmt.Sprintf("%s := [][%d]int{%s}", name, m, el)
+		} else {
+			decl = fmt.Sprintf("%s := [%d][%d]int{%s}", name, hi+1+g.r.Intn(2), m, el)
+		}
+		g.f("keyed-literal:nested")
+	}
+	for _, c := range consts {
+		g.w("%s", c)
+	}
+	g.w("%s", decl)
+	switch kind {
+	case 0, 1, 2:
+		fold("%s[%s]")
+	case 3, 4:
+		fold("int(%s[%s])")
+	default:
+		g.w("acc = (acc*31 + len(%s)) %% %d", name, modBig)
+		g.w("for %s := range %s {", i, name)
+		g.w("\tfor %s := range %s[%s] {", j, name, i)
+		g.w("\t\tacc = (acc*31 + %s[%s][%s]) %% %d", name, i, j, modBig)
+		g.w("\t}")
+		g.w("}")
+	}
+}
